@@ -205,6 +205,15 @@ func (u *Upstream) waitToSendAllDataPointsAndReceiveAllAck(ctx context.Context) 
 		return errors.Errorf("failed to flush chunk: %w", err)
 	}
 
+	// コンテキストの終了やクローズタイムアウトでも待機を解除します。
+	wake := func() {
+		u.receivedAck.L.Lock()
+		u.receivedAck.Broadcast()
+		u.receivedAck.L.Unlock()
+	}
+	defer context.AfterFunc(parentCtx, wake)()
+	defer context.AfterFunc(ctx, wake)()
+
 	u.receivedAck.L.Lock()
 	var err error
 	var remaining map[uint32]DataPointGroups
